@@ -214,6 +214,23 @@ func BlockPanics(b *ssa.BasicBlock) bool {
 // root value an access path starts from together with the dotted field path.
 func BaseObject(v ssa.Value) (ssa.Value, string) {
 	path := ""
+	if b, ok := v.(*Bound); ok {
+		root, p := BaseObject(b.V)
+		if prm, isP := root.(*ssa.Parameter); isP {
+			if a, ok := b.Bind[prm]; ok {
+				r2, p2 := BaseObject(a)
+				return r2, p2 + p
+			}
+		}
+		// callee-local root: keep it bound so that it cannot be mistaken for a caller value
+		if _, isC := root.(*ssa.Const); isC {
+			return root, p
+		}
+		if _, isG := root.(*ssa.Global); isG {
+			return root, p
+		}
+		return &Bound{V: root, Bind: b.Bind}, p
+	}
 	for {
 		switch x := v.(type) {
 		case *ssa.UnOp:
